@@ -292,13 +292,14 @@ CLAIMED = {
                   "stream (corollary of C04), and invariants of the send-buffer pool by induction over every history of acquire / lease / "
                   "hand-over / drop / release; tie: lock-step correspondence on the real SendBufferPool, and the C01/C02/C14 workload "
                   "generators replayed with IO_URING_SESSION_ENABLED against three configurations of the backend, whose canonical results must "
-                  "equal the model's predictions (= the Tokio backend's), plus churn and fan-in scenarios",
+                  "equal the model's predictions (= the Tokio backend's), plus churn, fan-in (up to 32 connections, payload integrity, senders closing right after their last send) scenarios",
         text="Proof over the models: for the same peer bytes, however the two backends cut and time their reads, the engine ends in the same "
              "state and emits the same handshake outcome, deliveries in order and errors; the pool's bookkeeping stays consistent under every "
              "history (including double and unknown releases), never hands out a buffer that is in use, gets every buffer back once all are "
              "released, a lease dropped before hand-over returns its buffer by itself, oversize data never takes a buffer. 7 theorems. KNOWN "
-             "FINDINGS C20:uring-more-than-8-connections (a 9th simultaneous connection of a socket is never attached; Tokio serves it) and "
-             "C20:uring-no-timers (no handshake deadline, no heartbeat tick in the io_uring handler), both replayed on every run. Partial: the receive ring, the worker's SQE/CQE state machine, descriptor handling and the spill-over "
+             "FINDING C20:uring-no-timers (no handshake deadline, no heartbeat tick in the io_uring handler), replayed on every run; two "
+             "defects the scenarios found were repaired (a 9th simultaneous connection was never attached; buffers of in-flight sends were "
+             "freed at close and freed memory went out on the wire). Partial: the receive ring, the worker's SQE/CQE state machine, descriptor handling and the spill-over "
              "queue are covered by the equivalence scenarios only.",
         note=COMMON_NOTE + "io_uring is a per-process singleton: each backend configuration is a separate harness process.",
         design="§8 C20"),
